@@ -248,25 +248,24 @@ Example global_writes_as_modelled : c09_global_writes = [
   ("cut_finding.cut_optimization:cut_optimization_goal_state_func", "PARAM-WRITE-assign func_args.entangling_gates := cast(list, func_args.entangling_gates)");
   ("cut_finding.cut_optimization:cut_optimization_next_state_func", "PARAM-WRITE-assign func_args.qpu_width := cast(int, func_args.qpu_width)");
   ("cut_finding.disjoint_subcircuits_state:DisjointSubcircuitsState.set_next_level", "PARAM-WRITE-assign state.level := cast(int, state.level)");
-  ("cutting_decomposition:cut_gates", "PARAM-WRITE-assign circuit.data[gate_id] := CircuitInstruction(qpd_gate, qubits=qubit_indices)");
-  ("cutting_decomposition:partition_circuit_qubits", "PARAM-WRITE-assign circuit.data[i] := CircuitInstruction(qpd_gate, qubits=qubit_indices)");
+  ("cutting_decomposition:cut_gates", "PARAM-WRITE-assign circuit.data[gate_id]");
+  ("cutting_decomposition:partition_circuit_qubits", "PARAM-WRITE-assign circuit.data[i]");
   ("cutting_experiments:_consolidate_resets", "PARAM-WRITE-del circuit.data[i]");
   ("cutting_experiments:_remove_final_resets", "PARAM-WRITE-del circuit.data[i]");
   ("cutting_experiments:_remove_resets_in_zero_state", "PARAM-WRITE-del circuit.data[i]");
   ("qpd.decompose:_decompose_qpd_instructions", "PARAM-CALL circuit.data.insert");
-  ("qpd.decompose:_decompose_qpd_instructions", "PARAM-WRITE-assign circuit.data[i + data_id_offset] := inst1");
-  ("qpd.decompose:_decompose_qpd_instructions", "PARAM-WRITE-assign circuit.data[i + data_id_offset] := tmp_data[0]");
+  ("qpd.decompose:_decompose_qpd_instructions", "PARAM-WRITE-assign circuit.data[i + data_id_offset]");
   ("qpd.decompose:_decompose_qpd_instructions", "PARAM-WRITE-del circuit.data[i + data_id_offset]");
-  ("qpd.decompose:_decompose_qpd_measurements", "PARAM-WRITE-assign circuit.data[i] := inst");
-  ("qpd.decompose:decompose_qpd_instructions", "PARAM-WRITE-assign circuit.data[gate_id].operation.basis_id := map_ids[i]");
+  ("qpd.decompose:_decompose_qpd_measurements", "PARAM-WRITE-assign circuit.data[i]");
+  ("qpd.decompose:decompose_qpd_instructions", "PARAM-WRITE-assign circuit.data[gate_id].operation.basis_id");
   ("qpd.decompositions:_register_qpdbasis_from_instruction.g", "WRITE-assign _qpdbasis_from_instruction_funcs[name] := f");
-  ("qpd.weights:__update_running_product_after_increment", "PARAM-WRITE-assign running_product[-1] := prev * coeff_probabilities[len(state) - 1][state[-1]]");
-  ("qpd.weights:_populate_samples", "PARAM-WRITE-assign random_samples[outcome] := count");
-  ("qpd.weights:_populate_samples", "PARAM-WRITE-assign random_samples[running_state + outcome] := count");
-  ("utils.transforms:_combine_barriers", "PARAM-WRITE-assign circuit.data[barrier_indices[0]] := new_barrier");
+  ("qpd.weights:__update_running_product_after_increment", "PARAM-WRITE-assign running_product[-1]");
+  ("qpd.weights:_populate_samples", "PARAM-WRITE-assign random_samples[outcome]");
+  ("qpd.weights:_populate_samples", "PARAM-WRITE-assign random_samples[running_state + outcome]");
+  ("utils.transforms:_combine_barriers", "PARAM-WRITE-assign circuit.data[barrier_indices[0]]");
   ("utils.transforms:_combine_barriers", "PARAM-WRITE-del circuit.data[inst - shift]");
   ("utils.transforms:_split_barriers", "PARAM-CALL circuit.data.insert");
-  ("utils.transforms:_split_barriers", "PARAM-WRITE-assign circuit.data[i] := CircuitInstruction(Barrier(1, label=barrier_uuid), qubits=[inst.qubits")
+  ("utils.transforms:_split_barriers", "PARAM-WRITE-assign circuit.data[i]")
 ].
 Proof. reflexivity. Qed.
 
